@@ -221,6 +221,13 @@ func deepCopy(src *lazyNode, options *ApplyOptions) (*lazyNode, int, error) {
 	if err != nil {
 		return nil, 0, err
 	}
+	// The copy is parsed lazily by a decoder that trusts its input. Every node of
+	// src was acceptable to it, but their serialisation as one value need not be
+	// (it can be nested deeper than the decoder reads), so check here instead of
+	// panicking when a later operation walks into the copy.
+	if !json.Valid(a) {
+		return nil, 0, fmt.Errorf("copied value cannot be read back (nested too deeply?): %w", ErrInvalid)
+	}
 	sz := len(a)
 	return newLazyNode(newRawMessage(a)), sz, nil
 }
